@@ -26,8 +26,13 @@ Expected ==
   THEN [f \in DOMAIN refs |-> IF refs[f] = E.name /\ K(E.name).ex /\ ~K(E.name).deleting /\ K(E.name).key = "ok" THEN K(E.name).v ELSE sec[f]]
   ELSE sec
 
+\* A reconcile of one Secret may also bring filters that reference ANOTHER Secret up to that Secret's current value (a
+\* level-triggered controller): C19 forbids giving a filter a value that is not its own Secret's, not giving it its own.
+Eligible(n) == K(n).ex /\ ~K(n).deleting /\ K(n).key = "ok"
+Allowed(f) == IF E.op = "reconcile" /\ refs[f] \notin {"lit", E.name} /\ Eligible(refs[f]) THEN {sec[f], K(refs[f]).v} ELSE {Expected[f]}
+
 Causes ==
-  LET bad == {f \in DOMAIN refs : E.held[f] # Expected[f]} IN
+  LET bad == {f \in DOMAIN refs : E.held[f] \notin Allowed(f)} IN
   IF bad = {} THEN {}
   ELSE LET f == CHOOSE x \in bad : \A y \in bad : x <= y IN
        {IF refs[f] # E.name \/ E.op # "reconcile" THEN "secret-of-a-filter-changed-that-must-not-change:" \o E.op
@@ -48,7 +53,7 @@ Next ==
             IF skip THEN UNCHANGED <<refs, k8s, sec, skip, sc, viol, fired>>
             ELSE /\ viol' = viol \cup {[p |-> "C19", m |-> "SecretSync", cause |-> c, sc |-> sc, n |-> 0, at |-> l] : c \in Causes}
                  /\ skip' = (Causes # {})
-                 /\ sec' = Expected /\ k8s' = NextK8s
+                 /\ sec' = [f \in DOMAIN refs |-> IF E.held[f] \in Allowed(f) THEN E.held[f] ELSE Expected[f]] /\ k8s' = NextK8s
                  /\ fired' = Bump(fired, E.op)
                  /\ UNCHANGED <<refs, sc>>
        [] OTHER -> UNCHANGED <<refs, k8s, sec, skip, sc, viol, fired>>
